@@ -98,11 +98,11 @@ pub struct AVote {
 }
 
 pub fn avote(v: &v2::ReplicaCommit) -> AVote {
-    AVote { view: v.view.number.0, number: v.proposal.number.0, hash: fx_hash(&zksync_consensus_crypto::ByteFmt::encode(&v.proposal.payload)) }
+    AVote { view: v.view.number.0, number: v.proposal.number.0, hash: ph(&v.proposal.payload) }
 }
 
 pub fn ph(p: &validator::PayloadHash) -> u64 {
-    fx_hash(&zksync_consensus_crypto::ByteFmt::encode(p))
+    fx_hash(&zksync_protobuf::encode(p))
 }
 
 /// A commit certificate by its semantic content (signers dropped).
